@@ -132,14 +132,14 @@ def gen_values(ctx):
     iresp = lambda: [17, conf(), r.choice([0, 500, 65535]), 6, r.choice([0, 0, 7])]
     gloresp = lambda n: [19, [r.randrange(3), True, True, False, False], r.getrandbits(32), rb(n)]
     cse = lambda: [15, 6, r.randrange(5)]
-    lens = [None, 0, 1, 8, 16, 63, 64]
+    lens = [None] + list(range(0, 21)) + [63, 64]          # every short length: a decoder must not special-case one
     out = []
     # ---- AARQ
     base_q = lambda: [ir(), None, None, None, False, None] + [None] * 7
     for m in MECHS:
         for c in (False, True):
             for tl in lens:
-                for vl in (None, 0, 8, 64):
+                for vl in ((None, 0, 8, 64) if tl in (None, 0, 8, 16) else (None, 6, 7, 9)):
                     a = base_q()
                     a[1], a[3], a[4], a[5] = (None if tl is None else rb(tl)), m, c, (None if vl is None else rb(vl))
                     out.append(("aarq", a))
@@ -170,7 +170,7 @@ def gen_values(ctx):
     for m in MECHS:
         for c in (False, True):
             for tl in lens:
-                for vl in (None, 0, 8, 64):
+                for vl in ((None, 0, 8, 64) if tl in (None, 0, 8, 16) else (None, 6, 7, 9)):
                     a = base_e()
                     a[2], a[3], a[4], a[6] = c, m, (None if tl is None else rb(tl)), (None if vl is None else rb(vl))
                     out.append(("aare", a))
